@@ -6,7 +6,7 @@ rust: chess_base/src/types.rs (FromStr/Display for Coord, Cell, Color, CastlingR
       chess/src/moves/base.rs (from_uci, from_uci_semilegal, from_uci_legal)
 A Rust `&str` is valid UTF-8; slicing off a character boundary panics — modelled by `isCharBoundary`.
 Modelled std pieces: `u16::from_str`, `Display for u16/usize`, `str::split(' ')`, `is_ascii`.
-`uci::Move::from_str` follows the repaired code (non-ASCII input is rejected before slicing), DESIGN §7 D2.
+`uci::Move::from_str` follows the repaired code (`str::get` instead of slicing), DESIGN §7 D2.
 -/
 import OwlModel.Impl.MoveGen
 
@@ -286,26 +286,35 @@ inductive UciMove
 inductive UciRawErr | badLength | badSrc (e : CoordErr) | badDst (e : CoordErr) | badPromote (b : Nat)
   deriving DecidableEq, Repr
 
-/-- `uci::Move::from_str` (repaired: ASCII gate before slicing) -/
+/-- `str::get(a..b)`: `none` unless both ends are character boundaries -/
+def strGet (s : Bytes) (a b : Nat) : Option Bytes :=
+  if isCharBoundary s a && isCharBoundary s b then some ((s.drop a).take (b - a)) else none
+
+/-- `uci::Move::from_str` (repaired: `str::get` instead of slicing; a cut character gives `BadLength`) -/
 def parseUci (s : Bytes) : Res UciRawErr UciMove :=
   if s = [48, 48, 48, 48] then .ok .null
-  else if !isAscii s || !(s.length = 4 || s.length = 5) then .err .badLength
-  else if !(isCharBoundary s 2 && isCharBoundary s 4) then .trap "str slice off char boundary"
+  else if !(s.length = 4 || s.length = 5) then .err .badLength
   else
-    match parseCoord (s.take 2) with
-    | .error e => .err (.badSrc e)
-    | .ok src =>
-      match parseCoord ((s.drop 2).take 2) with
-      | .error e => .err (.badDst e)
-      | .ok dst =>
-        if s.length = 5 then
-          let b := s.getD 4 0
-          if b = 110 then .ok (.move src dst (some .knight))
-          else if b = 98 then .ok (.move src dst (some .bishop))
-          else if b = 114 then .ok (.move src dst (some .rook))
-          else if b = 113 then .ok (.move src dst (some .queen))
-          else .err (.badPromote b)
-        else .ok (.move src dst none)
+    match strGet s 0 2 with
+    | none => .err .badLength
+    | some srcTxt =>
+      match parseCoord srcTxt with
+      | .error e => .err (.badSrc e)
+      | .ok src =>
+        match strGet s 2 4 with
+        | none => .err .badLength
+        | some dstTxt =>
+          match parseCoord dstTxt with
+          | .error e => .err (.badDst e)
+          | .ok dst =>
+            if s.length = 5 then
+              let b := s.getD 4 0
+              if b = 110 then .ok (.move src dst (some .knight))
+              else if b = 98 then .ok (.move src dst (some .bishop))
+              else if b = 114 then .ok (.move src dst (some .rook))
+              else if b = 113 then .ok (.move src dst (some .queen))
+              else .err (.badPromote b)
+            else .ok (.move src dst none)
 
 /-- `Display for uci::Move` -/
 def fmtUci : UciMove → Bytes
